@@ -40,7 +40,14 @@ def cases(tier, rng):
         n = int(rng.integers(1, 6))
         idx = rng.choice(len(UNIVERSE), size=n, replace=False)
         sp = [UNIVERSE[k] for k in idx]
-        me = [1] * n if rng.random() < 0.5 else [int(x) for x in rng.integers(1, 4, size=n)]
+        u = rng.random()
+        if u < 0.4:
+            me = [1] * n
+        elif u < 0.7:
+            me = [int(x) for x in rng.integers(1, 4, size=n)]
+        else:
+            # what the span graph really produces: counts of matched atoms, large and close to each other
+            me = [int(rng.choice([12, 30, 64])) - int(x) for x in rng.integers(0, 6, size=n)]
         out.append((sp, me))
     # lattice-like candidate sets: a basis plus some of its small combinations (what the span graph produces)
     for _ in range(n_latt):
@@ -55,7 +62,9 @@ def cases(tier, rng):
                 sp.append(v)
         if not sp:
             continue
-        me = [1] * len(sp) if rng.random() < 0.6 else [int(x) for x in rng.integers(1, 3, size=len(sp))]
+        u = rng.random()
+        me = ([1] * len(sp) if u < 0.4 else [int(x) for x in rng.integers(1, 3, size=len(sp))] if u < 0.6
+              else [int(rng.choice([12, 30, 64])) - int(x) for x in rng.integers(0, 6, size=len(sp))])
         out.append((sp, me))
     return out
 
